@@ -498,6 +498,13 @@ struct Gen
   }
 
   int pick_reg() { return r.below(next); }
+  // prefer registers with several segments (crop strata "later segment", "on a knot" need them)
+  int pick_reg_multi()
+  {
+    int a = pick_reg();
+    for (int k = 0; k < 8 && kn[a].size() < 2 && r.below(8) != 0; ++k) a = pick_reg();
+    return a;
+  }
 
   // ---- concat
   bool concat()
@@ -563,11 +570,12 @@ struct Gen
       return r.uni(-1, 1);
     }
     int c = r.below(100);
+    if (k.size() >= 2 && c < 34) c = (c < 14) ? 0 : (c < 26 ? 40 : 60);  // several segments: favour later segments / knots
     if (c < 34) {  // inside the first segment
       stratum = 0;
       return k[0] * r.uni(0.02, 0.98);
     } else if (c < 56) {  // inside a later segment (or the first when there is only one)
-      int j     = r.below(int(k.size()));
+      int j     = k.size() >= 2 ? 1 + r.below(int(k.size()) - 1) : 0;
       stratum   = j == 0 ? 0 : 1;
       double lo = j == 0 ? 0 : k[j - 1];
       return lo + (k[j] - lo) * r.uni(0.02, 0.98);
@@ -596,7 +604,7 @@ struct Gen
 
   bool crop()
   {
-    int a = pick_reg();
+    int a = pick_reg_multi();
     int sa, sb;
     double ta = crop_point(a, sa);
     double tb;
@@ -679,10 +687,10 @@ struct Gen
   {
     int nbase = 1 + r.below(3);
     for (int i = 0; i < nbase; ++i) base();
-    int nops = r.below(7);
+    int nops = r.below(8);
     for (int i = 0; i < nops; ++i) {
       int c = r.below(100);
-      if (c < 40) {
+      if (c < 45) {
         if (!concat()) crop();
       } else if (c < 94) {
         crop();
